@@ -7,6 +7,7 @@ import (
 	"go/token"
 	"go/types"
 	"regexp"
+	"strconv"
 	"strings"
 )
 
@@ -568,6 +569,31 @@ func (x *Exec) evalPseudo(name string, n *ast.CallExpr, st *State, env *Env) (Va
 		x.c.assumes = append(x.c.assumes, f)
 		x.usedContracts["lemma."+lm.Name] = true
 		return Val{T: f, Ty: tBool}, true
+	case "arg": // arg(i) in a before/after call:… point: the i-th actual argument of that call, evaluated in the current state
+		lit, ok := n.Args[0].(*ast.BasicLit)
+		if !ok || x.curCall == nil {
+			panic(unsupported("arg(i) needs a literal index and a before/after call:Name#k point"))
+		}
+		i, _ := strconv.Atoi(lit.Value)
+		if i < 0 || i >= len(x.curCall.Args) {
+			panic(unsupported("arg(" + lit.Value + "): the call has fewer arguments"))
+		}
+		saved := x.c.inContract
+		x.c.inContract++
+		v := x.eval(x.curCall.Args[i], st, x.codeEnv)
+		x.c.inContract = saved
+		return v, true
+	case "pre": // pre(N, e): e evaluated in the state at the start of the current iteration of loop N
+		lit, ok := n.Args[0].(*ast.BasicLit)
+		if !ok {
+			panic(unsupported("pre(N, e): N must be a loop ordinal literal"))
+		}
+		ord, _ := strconv.Atoi(lit.Value)
+		ist := x.iterStart[ord]
+		if ist == nil {
+			panic(unsupported("pre(" + lit.Value + ", …) used outside the body of loop " + lit.Value))
+		}
+		return x.eval(n.Args[1], ist, env), true
 	case "sortless":
 		// sortless(i, j): the comparator of the most recent sort.Slice* call (a single-return literal) evaluated on the
 		// current contents of the sorted slice at positions i, j
